@@ -522,15 +522,15 @@ func vfC09Run(t *testing.T, c *vfC09Case) (violation string, trace []string, cla
 				baseline, haveBaseline = published, published != nil
 			}
 			// I2: a response nothing authenticates changes nothing
-			if !authFull && !authRevOnly && !led.storeDamaged && haveBaseline && !led.justRestarted && !led.uncertain {
-				isConfigured := func(m string) bool {
-					for _, i := range configured {
-						if vfC09Material(keys[i].RR) == m {
-							return true
-						}
+			isConfigured := func(m string) bool {
+				for _, i := range configured {
+					if vfC09Material(keys[i].RR) == m {
+						return true
 					}
-					return false
 				}
+				return false
+			}
+			if !authFull && !authRevOnly && !led.storeDamaged && haveBaseline && !led.justRestarted && !led.uncertain {
 				for m := range before {
 					if _, ok := after[m]; !ok {
 						fail("step %d: a DNSKEY response that no trusted key authenticates removed %s from the live trust set", si, name(m))
@@ -549,7 +549,9 @@ func vfC09Run(t *testing.T, c *vfC09Case) (violation string, trace []string, cla
 			if !authFull && authRevOnly && haveBaseline && !led.uncertain {
 				classes["revocation-only-refresh"] = true
 				for m := range after {
-					if _, ok := baseline[m]; !ok && !(led.justRestarted && led.trusted(m)) {
+					// (as in I2: a configured anchor that aged out after 90 days missing is merged back from the configuration
+					// at the start of every refresh, before the response is even fetched; a revoked one never is - I4)
+					if _, ok := baseline[m]; !ok && !(led.justRestarted && led.trusted(m)) && !isConfigured(m) {
 						fail("step %d: a DNSKEY response authenticated only by a revoked key added %s to the live trust set", si, name(m))
 					}
 				}
